@@ -268,6 +268,12 @@ def spec_exitStatement(self, ctx):
             if isinstance(v, sym.Expr):
                 if not set(v.free_symbols) <= set(_PARAMS):
                     op_kwargs[k] = RegRefTransform(v)
+            elif isinstance(v, list):
+                # C08/C01: elements of a list-valued keyword argument alike
+                for idx, a in enumerate(v):
+                    if isinstance(a, sym.Expr):
+                        if not set(a.free_symbols) <= set(_PARAMS):
+                            v[idx] = RegRefTransform(a)
         operation = {"op": op, "args": op_args, "kwargs": op_kwargs, "modes": modes}
     else:
         operation = {"op": op, "modes": modes}
@@ -332,7 +338,7 @@ def spec_exitForloop(self, ctx):
 def spec_enterProgram(self, ctx):
     _VAR.clear()
     self._program._var.update(_VAR)
-    _PARAMS.clear()
+    # C09/C04: parameters met in the metadata options stay registered (the tables were emptied when the parse started)
     self._program._parameters.extend(_PARAMS)
 
 
